@@ -38,6 +38,7 @@ OBLIGATIONS = [
     "Grog.C19.ladder_exponential",
     "Grog.C19.ladder_visited_linear",
     "Grog.C19.changes_cost_le",
+    "Grog.C19.ancestor_set_cost_le",
     "Grog.C19.visited_nodup",
 ]
 ASSUMPTIONS = [
@@ -78,6 +79,10 @@ def run(ctx):
     reqs = []
     for n, es in cases:
         qs = [{"k": k, "v": v} for v in range(n) for k in ("desc", "anc", "deps", "rdeps")]
+        # getAncestorSet of the output-conflict detection, in a shuffled order with one shared memo cache per request
+        order = list(range(n))
+        rng.shuffle(order)
+        qs += [{"k": "ancset", "v": v} for v in order]
         reqs.append(trav_req(n, es, qs))
     # boundary sizes: fan-out / fan-in / depth around powers of two (few queries each: the model's visited list is quadratic)
     nb = 0
@@ -110,6 +115,12 @@ def run(ctx):
         es = [tuple(e) for e in r["edges"]]
         has_diamond = False
         for q, res in zip(r["q"], a["res"]):
+            if q["k"] == "ancset":
+                exp = sorted(G.reach(es, q["v"], forward=False))
+                if res != exp:
+                    ctx.violation("getAncestorSet (output-conflict detection) does not return the set of transitive dependencies",
+                                  {"kind": "oracle", "oracle": "reachable set", "request": dict(r, q=[x for x in r["q"] if x["k"] == "ancset"]), "query": q,
+                                   "impl": res, "expected": exp}, signature="ancestor-set-wrong")
             if q["k"] in ("desc", "anc"):
                 exp = sorted(G.reach(es, q["v"], forward=(q["k"] == "desc")))
                 npaths = G.count_paths(es, q["v"], forward=(q["k"] == "desc"))
@@ -273,5 +284,7 @@ def replay(ctx, rep):
     print("impl :", a)
     if r["op"] != "graph.cost":
         print("model:", ctx.model([r])[0])
-        print("model (path enumeration, old tree):", ctx.model([dict(r, op="graph.paths", q=[q for q in r["q"] if q["k"] in ("desc", "anc")])])[0])
+        pq = [q for q in r["q"] if q["k"] in ("desc", "anc")]
+        if pq:
+            print("model (path enumeration, old tree):", ctx.model([dict(r, op="graph.paths", q=pq)])[0])
     return 0
